@@ -129,27 +129,36 @@ WHY = {}
 
 GEN_PROG = r"""
 import hdl21 as h, hashlib
-from typing import FrozenSet, Optional
+from typing import FrozenSet, Optional, Tuple
 @h.paramclass
 class P:
     s = h.Param(dtype=FrozenSet[str], desc="set")
     t = h.Param(dtype=Optional[str], desc="t", default=None)
     i = h.Param(dtype=h.Instantiable, desc="unit", default_factory=h.primitives.Mos)
+@h.paramclass
+class Q:
+    groups = h.Param(dtype=FrozenSet[FrozenSet[str]], desc="set of sets")
+    nums = h.Param(dtype=FrozenSet[int], desc="ints", default=frozenset([3, 1, 2]))
+    pairs = h.Param(dtype=FrozenSet[Tuple[str, int]], desc="tuples", default=frozenset([("b", 1), ("a", 2)]))
 @h.generator
 def G(p: P) -> h.Module:
+    m = h.Module(); m.x = h.Port(); return m
+@h.generator
+def G2(q: Q) -> h.Module:
     m = h.Module(); m.x = h.Port(); return m
 @h.module
 class Top:
     a = h.Port()
     g0 = G(s=frozenset(["alpha", "beta", "gamma", "delta"]))(x=a)
     g1 = G(s=frozenset(["one"]), t="tee")(x=a)
+    g2 = G2(groups=frozenset([frozenset(["vdd", "vddio"]), frozenset(["vss", "sub", "gnd"]), frozenset(["in"]), frozenset(["outp", "outn"])]))(x=a)
     r = h.generators.Series(unit=h.primitives.R(r=1), nser=3, conns=["p", "n"])(p=a, n=a)
 print(hashlib.sha256(h.to_proto(Top).SerializeToString(deterministic=True)).hexdigest())
 """
 
 
 @harness("C12", args="nseeds: int", concrete=True, sample=(12,),
-         bounds="concrete seed (no symbolic input): a design with generator-made modules whose parameters include a set, a string and a Module-valued field, exported in 12 real processes with different PYTHONHASHSEED: byte-identical packages (names of generated modules included)")
+         bounds="concrete seed (no symbolic input): a design with generator-made modules whose parameters include sets of strings, ints, tuples and sets, a string and a Module-valued field, exported in 12 real processes with different PYTHONHASHSEED: byte-identical packages (names of generated modules included)")
 def generated_names_across_processes(nseeds):
     seen = set()
     R = os.environ.get("VERIF_REPO", "/repo")
